@@ -205,7 +205,7 @@ Theorem C05_add_default_attributes_preserves :
     forall tbl,
     (forall op attrs aenv subs ins k,
         interp op (resolve aenv (add_attrs attrs (op_defaults tbl op))) subs ins k = interp op (resolve aenv attrs) subs ins k) ->
-    forall m, WF m -> NoOpFunc m -> TblOK tbl m -> Pres T absent tensor_val interp m (add_default_attrs tbl m).
+    forall fuel m, WF m -> NoOpFunc m -> TblOK tbl m -> Pres T absent tensor_val interp m (add_default_attrs tbl fuel m).
 Proof. intros. apply add_default_attrs_pres; assumption. Qed.
 Print Assumptions C05_add_default_attributes_preserves.
 
